@@ -222,6 +222,37 @@ Proof.
   apply map_ext. intros i. f_equal. f_equal. lia.
 Qed.
 
+(* ---------- the stores of the trace are VecModel.write_all ---------- *)
+(* the i-th store of a trace writes the i-th of the values cloned *)
+Fixpoint apply_writes (base : N) (t : list effect) (vals : list N) (buf : list slot) : list slot :=
+  match t with
+  | [] => buf
+  | ("write", [VN a]) :: r =>
+      match vals with
+      | x :: xs => apply_writes base r xs (set_slot buf (N.to_nat (a - base)) x)
+      | [] => buf
+      end
+  | _ :: r => apply_writes base r vals buf
+  end.
+
+(* k clones written from element position pos on: exactly the buffer VecPanic.resize_clone_panic
+   builds (write_all at the old length), and the k increments give the length it reports *)
+Theorem cloned_is_write_all : forall k base pos vals buf, List.length vals = k ->
+  apply_writes base (cloned k (base + N.of_nat pos)) vals buf = write_all buf pos vals /\
+  count "increment_len" (cloned k (base + N.of_nat pos)) = k.
+Proof.
+  induction k as [|k IH]; intros base pos vals buf Hl.
+  - destruct vals; [|discriminate]. split; reflexivity.
+  - destruct vals as [|x xs]; [discriminate|]. injection Hl as Hl.
+    specialize (IH base (pos + 1)%nat xs (set_slot buf pos x) Hl). destruct IH as [IH1 IH2].
+    replace (base + N.of_nat (pos + 1)) with (base + N.of_nat pos + 1) in IH1, IH2 by lia.
+    split.
+    + cbn [cloned apply_writes e_next e_wr e_inc write_all].
+      replace (N.to_nat (base + N.of_nat pos - base)) with pos by lia. exact IH1.
+    + unfold count in *. cbn [cloned filter e_next e_wr e_inc fst String.eqb Ascii.eqb Bool.eqb List.length].
+      rewrite IH2. reflexivity.
+Qed.
+
 Example extend_walk_ex :
   exec src_fns 12 (xenv0 2 1000 3) [] [Some true; Some true; Some true] xproc
   = XOk (xenv 2 1000 3 1004)
